@@ -68,6 +68,12 @@ pub mod context;
 mod derived;
 pub mod forest;
 mod logic;
+/// Verification hook (add-only; compiled only with `--cfg chalk_verif`): work counter / budget
+/// of the `ensure_root_answer` loop.
+#[cfg(chalk_verif)]
+pub mod verif_work {
+    pub use crate::logic::verif::{reset, work, BUDGET_PANIC};
+}
 mod normalize_deep;
 mod simplify;
 pub mod slg;
